@@ -385,6 +385,9 @@ func cmdCheck(args []string) {
 		os.Exit(doReplay(workDir, id, *replayFile))
 	}
 
+	if *solver != "z3" {
+		solverDescription = *solver + " (incremental; one bit-vector and one integer-mode process per worker)"
+	}
 	t0 := time.Now()
 	statusBefore := repoStatus()
 	var pkgPaths []string
